@@ -123,3 +123,36 @@ Proof.
   - rewrite (seqZ_cons a (b - a)) by lia. reflexivity.
   - rewrite seqZ_nil by lia. reflexivity.
 Qed.
+
+(* every row of the join holds a left row index in range and a right row index in range or the marker *)
+Lemma matches_from_range key R : forall j0 j, In j (matches_from key R j0) -> j0 <= j < j0 + len R.
+Proof.
+  induction R as [|x t IH]; intros j0 j Hin; cbn [matches_from] in Hin; [contradiction|].
+  rewrite len_cons. pose proof (len_nonneg t).
+  destruct (x =? key).
+  - destruct Hin as [<-|Hin]; [lia|]. specialize (IH _ _ Hin). lia.
+  - specialize (IH _ _ Hin). lia.
+Qed.
+
+Lemma row_range emit inv R i key p : In p (row emit inv R i key) ->
+  fst p = i /\ (snd p = inv \/ 0 <= snd p < len R).
+Proof.
+  unfold row, matches. destruct (matches_from key R 0) eqn:E.
+  - destruct emit; [|contradiction]. intros [<-|[]]. cbn. auto.
+  - rewrite <- E. intros Hin. apply in_map_iff in Hin. destruct Hin as (j & <- & Hj).
+    apply matches_from_range in Hj. cbn. split; [reflexivity|right; lia].
+Qed.
+
+Lemma jf_range emit inv R : forall l i0 p, In p (jf emit inv l R i0) ->
+  i0 <= fst p < i0 + len l /\ (snd p = inv \/ 0 <= snd p < len R).
+Proof.
+  induction l as [|x t IH]; intros i0 p Hin; cbn [jf] in Hin; [contradiction|].
+  rewrite len_cons. pose proof (len_nonneg t).
+  apply in_app_or in Hin. destruct Hin as [Hin|Hin].
+  - apply row_range in Hin. destruct Hin as [H1 H2]. split; [lia|exact H2].
+  - specialize (IH _ _ Hin). destruct IH as [H1 H2]. split; [lia|exact H2].
+Qed.
+
+Lemma join_spec_range emit inv L R p : In p (join_spec emit inv L R) ->
+  0 <= fst p < len L /\ (snd p = inv \/ 0 <= snd p < len R).
+Proof. rewrite <- jf_spec. intros H. apply jf_range in H. lia. Qed.
